@@ -209,10 +209,17 @@ class ReleasedCacheNative(Contract):
     symbolic = False
     has_native = True
     props = ("C07",)
-    bounded_scope = "file-backed 5-vertex curves (4 cell lists) and surfaces (2) and a point cloud with vertex/cell data; parts read or not before the operation; remove_vertices / remove_cells with 4 index sets; state compared right after the operation, after clear_array_attributes(recursive) and after re-opening the file"
+    bounded_scope = "file-backed 5-vertex curves (6 cell lists incl. a closed ring and a triangle) and surfaces (2) and a point cloud with vertex/cell data; parts read or not before the operation; remove_vertices / remove_cells with 4 index sets, or no removal at all (release through clear_array_attributes or through copy(clear_cache=True)); state compared right after the operation, after clear_array_attributes(recursive) and after re-opening the file"
 
     def native_cases(self, tier, rng):
-        geoms = {"points": [None], "curve": [[[0, 1], [1, 2], [2, 3], [3, 4]], [[0, 1], [2, 3]], [[3, 4], [0, 1]], [[0, 1], [1, 2], [3, 4]]], "surface": [[[0, 1, 2], [2, 3, 4]], [[4, 3, 2], [0, 1, 2], [1, 2, 3]]]}
+        geoms = {"points": [None], "curve": [[[0, 1], [1, 2], [2, 3], [3, 4]], [[0, 1], [2, 3]], [[3, 4], [0, 1]], [[0, 1], [1, 2], [3, 4]], [[0, 1], [1, 2], [2, 3], [3, 4], [4, 0]], [[0, 1], [1, 2], [0, 2], [3, 4]]],
+                 "surface": [[[0, 1, 2], [2, 3, 4]], [[4, 3, 2], [0, 1, 2], [1, 2, 3]]]}
+        # releasing the cached arrays alone (what copy(clear_cache=True) does to its source) changes nothing either
+        for kind, cl in geoms.items():
+            for cells in cl:
+                for how in ("clear", "copy-clear_cache"):
+                    for parts_read in ((False, True) if kind == "curve" else (False,)):
+                        yield {"kind": kind, "n": 5, "cells": cells, "op": "none", "indices": [], "parts_read": parts_read, "how": how}
         for kind, cl in geoms.items():
             for cells in cl:
                 for op in ("remove_vertices", "remove_cells"):
@@ -250,7 +257,8 @@ class ReleasedCacheNative(Contract):
                 if case["parts_read"]:
                     obj.parts  # materialise the derived cache
                 try:
-                    getattr(obj, case["op"])(list(case["indices"]))
+                    if case["op"] != "none":
+                        getattr(obj, case["op"])(list(case["indices"]))
                 except Exception:
                     return None  # refusals are CellRemoveNative's subject
                 # text data of a one-element geometry is stored as a single string and read as a bare str:
@@ -260,7 +268,10 @@ class ReleasedCacheNative(Contract):
                 bad = _consistent(obj)
                 if bad:
                     return f"{bad} ({case})"
-                clear_array_attributes(obj, recursive=True)
+                if case.get("how") == "copy-clear_cache":
+                    obj.copy(clear_cache=True)
+                else:
+                    clear_array_attributes(obj, recursive=True)
                 bad = same(after, state(obj))
                 if bad:
                     return f"after {case['op']}({case['indices']}) and a release of the cached arrays: {bad} ({case})"
